@@ -208,6 +208,50 @@ impl serde::Serialize for Unencodable {
     }
 }
 
+/// Fails after the encoder has already emitted the opening of a map and one entry.
+struct PartialThenFail;
+impl serde::Serialize for PartialThenFail {
+    fn serialize<S: serde::Serializer>(&self, s: S) -> Result<S::Ok, S::Error> {
+        use serde::ser::SerializeMap;
+        let mut m = s.serialize_map(None)?;
+        m.serialize_entry("first", &1u8)?;
+        m.serialize_entry("second", &Unencodable)?;
+        m.end()
+    }
+}
+
+/// A worker thread that lives as long as the process: every broadcast of the explicit histories runs on
+/// it, so state a helper keeps per thread (a reused encode buffer, ...) survives from one call to the
+/// next exactly as it does for a publisher task; a broadcast that never returns is still a report.
+struct Worker {
+    tx: std::sync::mpsc::Sender<Box<dyn FnOnce() + Send>>,
+}
+
+impl Worker {
+    fn new() -> Worker {
+        let (tx, rx) = std::sync::mpsc::channel::<Box<dyn FnOnce() + Send>>();
+        std::thread::spawn(move || {
+            while let Ok(job) = rx.recv() {
+                job();
+            }
+        });
+        Worker { tx }
+    }
+    /// Run `f` on the worker; `None` if it does not finish within `limit`.
+    fn run<T: Send + 'static>(&self, limit: Duration, f: impl FnOnce() -> T + Send + 'static) -> Option<T> {
+        let (rtx, rrx) = std::sync::mpsc::channel();
+        let _ = self.tx.send(Box::new(move || {
+            let _ = rtx.send(f());
+        }));
+        rrx.recv_timeout(limit).ok()
+    }
+}
+
+fn worker() -> &'static Worker {
+    static W: std::sync::OnceLock<Worker> = std::sync::OnceLock::new();
+    W.get_or_init(Worker::new)
+}
+
 fn tag_of(h: &PeerHandle) -> u64 {
     PROBED.with(|c| c.set(u64::MAX));
     let _ = h.send_notify(PROBE, NotifyBody::Raw(Vec::new(), BodyFormat::RawBinary));
@@ -467,6 +511,8 @@ enum EOp {
     Len,
     Bcast,
     Get(u64),
+    KeyFor(u64),
+    Peers,
 }
 
 fn eop_of_code(c: u8) -> Option<EOp> {
@@ -487,6 +533,10 @@ fn eop_of_code(c: u8) -> Option<EOp> {
         EOp::Bcast
     } else if c < 26 {
         EOp::Get(c - 23)
+    } else if c < 29 {
+        EOp::KeyFor(c - 26)
+    } else if c == 29 {
+        EOp::Peers
     } else {
         return None;
     })
@@ -496,11 +546,12 @@ fn eops_of_str(s: &str) -> Option<Vec<EOp>> {
     if s == "-" {
         return Some(vec![]);
     }
-    s.bytes().map(|b| if b >= 97 { eop_of_code(b - 97) } else { None }).collect()
+    // a..z = codes 0..25, A..D = codes 26..29 (key_for 0..2, peers)
+    s.bytes().map(|b| if (97..123).contains(&b) { eop_of_code(b - 97) } else if (65..69).contains(&b) { eop_of_code(b - 65 + 26) } else { None }).collect()
 }
 
 fn code_char(c: u8) -> char {
-    (97 + c) as char
+    if c < 26 { (97 + c) as char } else { (65 + c - 26) as char }
 }
 
 /// Explicit op line of a coded op (for replays).
@@ -515,6 +566,8 @@ fn explicit(op: EOp, idx: usize, tag: u64) -> String {
         EOp::Len => format!("len {}", idx),
         EOp::Bcast => format!("bcast {} raw 2f63 0 01", idx),
         EOp::Get(p) => format!("get {} {}", idx, p),
+        EOp::KeyFor(p) => format!("keyfor {} {}", idx, p),
+        EOp::Peers => format!("peers {}", idx),
     }
 }
 
@@ -545,6 +598,12 @@ fn spec_apply(s: &mut Spec, tag: u64, op: EOp) -> Option<String> {
         EOp::Len => s.peers.len().to_string(),
         EOp::Bcast => format!("{{{}}}", s.sorted_ids().iter().map(|x| x.to_string()).collect::<Vec<_>>().join(",")),
         EOp::Get(p) => s.get(p),
+        EOp::KeyFor(p) => s.keyfor(p),
+        EOp::Peers => {
+            let mut v: Vec<(u64, u64)> = s.peers.iter().map(|p| (p.id, p.tag)).collect();
+            v.sort();
+            format!("[{}]", v.iter().map(|(i, t)| format!("{}/{}", i, t)).collect::<Vec<_>>().join(","))
+        }
     })
 }
 
@@ -574,6 +633,12 @@ fn real_apply(reg: &PeerRegistry, log: &Log, tag: u64, op: EOp, keys: &[String],
             format!("{{{}}}", ids.iter().map(|x| x.to_string()).collect::<Vec<_>>().join(","))
         }
         EOp::Get(p) => show_handle(reg.get(PeerId(p))),
+        EOp::KeyFor(p) => reg.key_for(PeerId(p)).map(|k| hex(k.as_bytes())).unwrap_or_else(|| "-".into()),
+        EOp::Peers => {
+            let mut v: Vec<(u64, u64)> = reg.peers().iter().map(|h| (h.peer_id().0, tag_of(h))).collect();
+            v.sort();
+            format!("[{}]", v.iter().map(|(i, t)| format!("{}/{}", i, t)).collect::<Vec<_>>().join(","))
+        }
     }
 }
 
@@ -926,6 +991,135 @@ fn run_conc(setup: &[EOp], progs: &[Vec<EOp>], reps: u64, budget: Duration) -> C
 }
 
 // ---------------------------------------------------------------------------------------------
+// looped races: one mutator cycles through a sequence of calls that returns to its start state while
+// reader threads repeat lookups.  Every lookup is one atomic step, so its answer must be the answer in
+// ONE of the states of the cycle (a necessary condition for linearizability that needs no search).
+// ---------------------------------------------------------------------------------------------
+fn loop_tag(op: EOp) -> u64 {
+    match op {
+        EOp::Ins(p) => 10 + p,
+        _ => 0,
+    }
+}
+
+/// States of the cycle (start state first) or None if the spec is ill-formed (insert of a present id, or
+/// the cycle does not return to its start state).
+fn loop_states(setup: &[EOp], cycle: &[EOp]) -> Option<Vec<Spec>> {
+    let mut spec = Spec::default();
+    for op in setup {
+        spec_apply(&mut spec, loop_tag(*op), *op)?;
+    }
+    let start = spec.digest(&ENUM_IDS, &enum_keys());
+    let mut states = vec![spec.clone()];
+    for op in cycle {
+        spec_apply(&mut spec, loop_tag(*op), *op)?;
+        states.push(spec.clone());
+    }
+    if spec.digest(&ENUM_IDS, &enum_keys()) != start {
+        return None;
+    }
+    Some(states)
+}
+
+fn is_query(op: EOp) -> bool {
+    matches!(op, EOp::GetBy(_) | EOp::Aliases(_) | EOp::Len | EOp::Bcast | EOp::Get(_) | EOp::KeyFor(_) | EOp::Peers)
+}
+
+struct LoopResult {
+    /// per reader, per query position: the distinct answers observed
+    answers: Vec<Vec<BTreeSet<String>>>,
+    cycles: u64,
+    reads: u64,
+    stuck: bool,
+}
+
+fn run_loop(setup: &[EOp], cycle: &[EOp], readers: &[Vec<EOp>], budget: Duration) -> LoopResult {
+    let keys = enum_keys();
+    let mut real = Real::new();
+    for op in setup {
+        if let EOp::Ins(p) = op {
+            real.inserted.push(*p);
+        }
+        real_apply(&real.reg, &real.log, loop_tag(*op), *op, &keys, &[0]);
+    }
+    for op in cycle {
+        if let EOp::Ins(p) = op {
+            real.inserted.push(*p);
+        }
+    }
+    let stop = Arc::new(AtomicBool::new(false));
+    let go = Arc::new(AtomicBool::new(false));
+    let cycles = Arc::new(AtomicUsize::new(0));
+    let reads = Arc::new(AtomicUsize::new(0));
+    let mut joins = Vec::new();
+    {
+        let (reg, log, stop, go, cycles, keys, cycle) = (real.reg.clone(), real.log.clone(), stop.clone(), go.clone(), cycles.clone(), keys.clone(), cycle.to_vec());
+        joins.push(std::thread::spawn(move || {
+            while !go.load(Ordering::Acquire) {
+                std::hint::spin_loop();
+            }
+            // always finish the cycle that was started: the registry ends in the start state
+            while !stop.load(Ordering::Acquire) {
+                for op in &cycle {
+                    real_apply(&reg, &log, loop_tag(*op), *op, &keys, &[0]);
+                }
+                cycles.fetch_add(1, Ordering::Relaxed);
+                if cycles.load(Ordering::Relaxed) % 64 == 0 {
+                    log.lock().unwrap().clear();
+                }
+            }
+            Vec::new()
+        }));
+    }
+    for prog in readers {
+        let (reg, log, stop, go, reads, keys, prog) = (real.reg.clone(), real.log.clone(), stop.clone(), go.clone(), reads.clone(), keys.clone(), prog.clone());
+        joins.push(std::thread::spawn(move || {
+            let mut seen: Vec<BTreeSet<String>> = prog.iter().map(|_| BTreeSet::new()).collect();
+            while !go.load(Ordering::Acquire) {
+                std::hint::spin_loop();
+            }
+            let mut n = 0usize;
+            while !stop.load(Ordering::Acquire) {
+                for (i, op) in prog.iter().enumerate() {
+                    let a = real_apply(&reg, &log, 0, *op, &keys, &[9]);
+                    if !seen[i].contains(&a) {
+                        seen[i].insert(a);
+                    }
+                }
+                n += 1;
+                if n % 256 == 0 {
+                    std::thread::yield_now();
+                }
+            }
+            reads.fetch_add(n, Ordering::Relaxed);
+            seen
+        }));
+    }
+    go.store(true, Ordering::Release);
+    std::thread::sleep(budget);
+    stop.store(true, Ordering::Release);
+    let t0 = Instant::now();
+    let mut res = LoopResult { answers: Vec::new(), cycles: 0, reads: 0, stuck: false };
+    for (i, j) in joins.into_iter().enumerate() {
+        while !j.is_finished() {
+            if t0.elapsed() > Duration::from_secs(60) {
+                res.stuck = true;
+                std::mem::forget(real);
+                return res;
+            }
+            std::thread::sleep(Duration::from_millis(1));
+        }
+        let seen = j.join().unwrap_or_default();
+        if i > 0 {
+            res.answers.push(seen);
+        }
+    }
+    res.cycles = cycles.load(Ordering::Relaxed) as u64;
+    res.reads = reads.load(Ordering::Relaxed) as u64;
+    res
+}
+
+// ---------------------------------------------------------------------------------------------
 // explicit op lines: a session = real registry + spec, both driven by the same lines
 // ---------------------------------------------------------------------------------------------
 struct Sess {
@@ -949,6 +1143,7 @@ impl Sess {
 }
 
 struct Cfg {
+    loop_budget: Duration,
     conc_reps: u64,
     conc_budget: Duration,
     threads: usize,
@@ -1004,7 +1199,7 @@ fn exec(out: &mut Out, se: &mut Sess, cfg: &Cfg, line: &str) -> (String, String,
     }
     let idx = w.get(1).copied().unwrap_or("?").to_string();
     let bad = |l: &str| (l.to_string(), format!("{} bad-op", idx), false);
-    if !matches!(w[0], "enum" | "conc" | "concs") {
+    if !matches!(w[0], "enum" | "conc" | "concs" | "loop") {
         se.history.push(line.to_string());
     }
     let check_ret = |out: &mut Out, se: &Sess, name: &str, imp: &str, want: &str| {
@@ -1129,12 +1324,12 @@ fn exec(out: &mut Out, se: &mut Sess, cfg: &Cfg, line: &str) -> (String, String,
             let src = w.get(6).and_then(|s| unhex(s));
             se.real.log.lock().unwrap().clear();
             let reg = se.real.reg.clone();
-            // run on a helper thread: a registry that holds its lock while sending deadlocks on a
-            // re-entrant sink, which must become a report, not a hang
-            let (tx, rx) = std::sync::mpsc::channel();
+            // run on the long-lived worker thread: a registry that holds its lock while sending deadlocks on
+            // a re-entrant sink, which must become a report, not a hang; and per-thread state of the helpers
+            // survives between calls
             let (variant_s, path_s, body_s) = (variant.to_string(), path.clone(), body.clone());
             type BRes = (Vec<(u64, &'static str)>, Vec<(u64, String)>);
-            std::thread::spawn(move || {
+            let outcome = worker().run(Duration::from_secs(30), move || {
                 let r: Result<Result<BRes, String>, String> = catch(|| {
                     let res = match (variant_s.as_str(), via) {
                         ("raw", v) => {
@@ -1174,15 +1369,15 @@ fn exec(out: &mut Out, se: &mut Sess, cfg: &Cfg, line: &str) -> (String, String,
                     texts.sort();
                     Ok((v, texts))
                 });
-                let _ = tx.send(r);
+                r
             });
             let mut present: Vec<(u64, u64)> = se.spec.peers.iter().map(|p| (p.id, p.tag)).collect();
             present.sort();
             let panicky = present.iter().any(|(_, t)| matches!(se.behs.get(t), Some(Beh::Panic(_))));
-            let (got, texts) = match rx.recv_timeout(Duration::from_secs(30)) {
-                Ok(Ok(Ok(v))) => v,
-                Ok(Ok(Err(_))) => return bad(line),
-                Ok(Err(_)) => {
+            let (got, texts) = match outcome {
+                Some(Ok(Ok(v))) => v,
+                Some(Ok(Err(_))) => return bad(line),
+                Some(Err(_)) => {
                     // the property says nothing about what a broadcast does when a sink panics; it is only
                     // a report when no present sink was one that panics.  The registry itself must be
                     // untouched either way (the `dump` that follows checks that).
@@ -1192,7 +1387,7 @@ fn exec(out: &mut Out, se: &mut Sess, cfg: &Cfg, line: &str) -> (String, String,
                     out.count("bcast.sink_panics");
                     return (line.to_string(), format!("{} PANIC", idx), false);
                 }
-                Err(_) => {
+                None => {
                     out.oracle_fail("peers.bcast.stuck", "broadcast did not return within 30 s with a sink that calls back into the registry (lock held while sending?)", &se.history);
                     return (line.to_string(), format!("{} STUCK", idx), false);
                 }
@@ -1383,16 +1578,44 @@ fn exec(out: &mut Out, se: &mut Sess, cfg: &Cfg, line: &str) -> (String, String,
                 bad(line)
             }
         }
-        "bcastfail" if w.len() == 4 => {
+        "bcastfail" if w.len() == 4 || w.len() == 5 => {
+            // 5th token: how the body fails to encode: `none` (before any output), `partial` (a Serialize impl
+            // that errors after its first entry), `mapkey` (a map whose keys are not strings; json only)
             let Some(path) = unhex(w[3]).and_then(|b| String::from_utf8(b).ok()) else { return bad(line) };
+            let mode = w.get(4).copied().unwrap_or("none").to_string();
             se.real.log.lock().unwrap().clear();
-            let r = match w[2] {
-                "json" => se.real.reg.broadcast_notify_json(&path, &Unencodable).is_err(),
-                "beve" => se.real.reg.broadcast_notify_beve(&path, &Unencodable).is_err(),
-                _ => return bad(line),
+            let reg = se.real.reg.clone();
+            let variant = w[2].to_string();
+            // on the same worker thread as the successful broadcasts: whatever a failed encode leaves behind
+            // must not reach a later call
+            let r = worker().run(Duration::from_secs(30), move || {
+                catch(|| {
+                    let mut mk: std::collections::BTreeMap<(u8, u8), u8> = std::collections::BTreeMap::new();
+                    mk.insert((1, 2), 3);
+                    match (variant.as_str(), mode.as_str()) {
+                        ("json", "partial") => Some(reg.broadcast_notify_json(&path, &PartialThenFail).is_err()),
+                        ("json", "mapkey") => Some(reg.broadcast_notify_json(&path, &mk).is_err()),
+                        ("json", _) => Some(reg.broadcast_notify_json(&path, &Unencodable).is_err()),
+                        ("beve", "partial") => Some(reg.broadcast_notify_beve(&path, &PartialThenFail).is_err()),
+                        ("beve", _) => Some(reg.broadcast_notify_beve(&path, &Unencodable).is_err()),
+                        _ => None,
+                    }
+                })
+            });
+            let r = match r {
+                Some(Ok(Some(r))) => r,
+                Some(Ok(None)) => return bad(line),
+                Some(Err(_)) => {
+                    out.oracle_fail("peers.bcast.panic", "broadcast panicked on a body that fails to encode", &se.history);
+                    return (line.to_string(), format!("{} PANIC", idx), false);
+                }
+                None => {
+                    out.oracle_fail("peers.bcast.stuck", "broadcast with a body that fails to encode did not return within 30 s", &se.history);
+                    return (line.to_string(), format!("{} STUCK", idx), false);
+                }
             };
             let n = se.real.log.lock().unwrap().len();
-            out.count("bcast.encoder_error");
+            out.count(&format!("bcast.encoder_error.{}", w.get(4).copied().unwrap_or("none")));
             if !r || n != 0 {
                 out.oracle_fail("peers.bcast.encoder_error", &format!("encoder failed: returned Err = {}, notifications sent = {}", r, n), &se.history);
             }
@@ -1417,6 +1640,67 @@ fn exec(out: &mut Out, se: &mut Sess, cfg: &Cfg, line: &str) -> (String, String,
                     (line.to_string(), lines.join("\n"), nt > 0)
                 }
                 None => bad(line),
+            }
+        }
+        "loop" if w.len() >= 5 => {
+            // loop <i> <setup> <cycle> <reader>.. [:: <answers per reader>..]
+            let (Some(setup), Some(cycle)) = (eops_of_str(w[2]), eops_of_str(w[3])) else { return bad(line) };
+            let mut readers = Vec::new();
+            for t in &w[4..] {
+                if *t == "::" {
+                    break;
+                }
+                let Some(p) = eops_of_str(t) else { return bad(line) };
+                if p.is_empty() || !p.iter().all(|o| is_query(*o)) {
+                    return bad(line);
+                }
+                readers.push(p);
+            }
+            let Some(states) = loop_states(&setup, &cycle) else { return bad(line) };
+            if readers.is_empty() || cycle.is_empty() {
+                return bad(line);
+            }
+            let res = run_loop(&setup, &cycle, &readers, cfg.loop_budget);
+            let head: Vec<&str> = w.iter().take_while(|x| **x != "::").cloned().collect();
+            let head = head.join(" ");
+            if res.stuck {
+                out.oracle_fail("peers.loop.stuck", "looping callers did not stop within 60 s", &[head.clone()]);
+                return (head, format!("{} STUCK", idx), false);
+            }
+            out.add("loop.cycles", res.cycles);
+            out.add("loop.reads", res.reads);
+            out.evaluations += res.reads;
+            // observed answers on the op line: per reader `c=ans|ans;c=ans`
+            let toks: Vec<String> = res
+                .answers
+                .iter()
+                .enumerate()
+                .map(|(ri, seen)| {
+                    let codes: Vec<char> = w[4 + ri].chars().collect();
+                    seen.iter().enumerate().map(|(i, set)| format!("{}={}", codes[i], set.iter().cloned().collect::<Vec<_>>().join("|"))).collect::<Vec<_>>().join(";")
+                })
+                .collect();
+            let full = format!("{} :: {}", head, toks.join(" "));
+            // direct oracle: every answer is the answer in one of the cycle's states
+            let mut bad_ans: Option<String> = None;
+            let mut total = 0usize;
+            for (prog, seen) in readers.iter().zip(res.answers.iter()) {
+                for (op, set) in prog.iter().zip(seen.iter()) {
+                    let adm: BTreeSet<String> = states.iter().map(|st| spec_apply(&mut st.clone(), 0, *op).unwrap_or_default()).collect();
+                    for a in set {
+                        total += 1;
+                        if !adm.contains(a) && bad_ans.is_none() {
+                            bad_ans = Some(format!("{:?} answered {} but in every state the cycle passes through the answer is one of {:?}", op, a, adm));
+                        }
+                    }
+                }
+            }
+            match bad_ans {
+                Some(d) => {
+                    out.oracle_fail("peers.loop.inadmissible", &format!("while one thread cycles `{}` from `{}`: {}", w[3], w[2], d), &[full.clone()]);
+                    (full, format!("{} INADMISSIBLE", idx), true)
+                }
+                None => (full, format!("{} ok {}", idx, total), true),
             }
         }
         "conc" | "concs" if w.len() >= 4 => {
@@ -1724,7 +2008,28 @@ fn gen_history(rng: &mut Rng, n: &mut usize, len: usize, thorough: bool, ops: &m
                 5 => ops.push(format!("dbgreg {}", i)),
                 6 => ops.push(format!("ctx {} new {} {}", i, id, m)),
                 7 => ops.push(format!("ctx {} detached {}", i, m)),
-                8 => ops.push(format!("bcastfail {} {} {}{}", i, rng.pick(&["json", "beve"]), m, oc)),
+                8 => {
+                    // a body that fails to encode (before any output / after some output), and often a successful
+                    // broadcast of the same flavour right after it: nothing of the failed call may survive
+                    let (variant, mode) = *rng.pick(&[("json", "none"), ("json", "partial"), ("json", "partial"), ("json", "mapkey"), ("beve", "none"), ("beve", "partial")]);
+                    ops.push(format!("bcastfail {} {} {} {}{}", i, variant, m, mode, oc));
+                    if rng.chance(2, 3) {
+                        let v = gen_json(rng, 2);
+                        let j = next(n);
+                        if variant == "json" {
+                            ops.push(format!("bcast {} json {} 2 {} via=0", j, m, hex(&serde_json::to_vec(&v).unwrap())));
+                        } else {
+                            ops.push(format!("bcast {} beve {} 1 {} {}", j, m, hex(&beve::to_vec(&v).unwrap()), hex(&serde_json::to_vec(&v).unwrap())));
+                        }
+                        let present: Vec<(u64, u64)> = spec.peers.iter().map(|p| (p.id, p.tag)).collect();
+                        if !present.iter().any(|(_, t)| matches!(behs.get(t), Some(Beh::Panic(_)))) {
+                            for (pid, t) in present {
+                                gen_fire(&mut spec, &mut behs, &mut fired, pid, t);
+                            }
+                        }
+                        mutated = true;
+                    }
+                }
                 _ => {
                     let present = spec.sorted_ids();
                     let v = if !present.is_empty() && rng.chance(4, 5) { *rng.pick(&present) } else { id };
@@ -1824,7 +2129,7 @@ fn gen_conc(rng: &mut Rng, idx: usize) -> String {
                 let c = match rng.below(10) {
                     0..=5 => rng.range(3, 14) as u8, // rem / alias
                     6 => rng.below(3) as u8,         // ins
-                    _ => rng.range(15, 25) as u8,    // queries / broadcast
+                    _ => rng.range(15, 29) as u8,    // queries / broadcast
                 };
                 if let Some(EOp::Ins(pid)) = eop_of_code(c) {
                     if spec.present(pid) || inserted.contains(&pid) {
@@ -1870,15 +2175,87 @@ fn targeted_conc() -> Vec<&'static str> {
     ]
 }
 
+/// Hand-picked looped races.  Codes: a,b ins 0,1; d,e rem; g,j alias(0,a),(1,a); h,k alias(0,b),(1,b);
+/// p,q get_by a,b; s,t aliases_for 0,1; x,y get 0,1; v len; w broadcast; A,B key_for 0,1; D peers.
+fn targeted_loops() -> Vec<&'static str> {
+    vec![
+        // the key always points at a present peer: re-point, remove the old owner, bring it back
+        "abg jdagea p p pA",     // (trailing `a`... see filter: ill-formed shapes are dropped)
+        "abg jdageb p p p",
+        "abg jdageb pA sB tD",
+        "abg jdageb x y v",
+        "abg jdageb w D p",
+        // two keys swapping owners: both always resolve
+        "abgk jhgk pq st AB",
+        "abgk jhgk p q D",
+        // alias, remove, re-insert
+        "ab gda p s x",
+        "ab gda A D w",
+        "abg dag p A s",
+        "abgh jdaghea pq sA D",
+        "abgh jdageb pq s A",
+    ]
+}
+
+/// A random looped race: random setup, a random walk that returns to its start state, three readers.
+fn gen_loop(rng: &mut Rng, idx: usize) -> String {
+    loop {
+        let mut spec = Spec::default();
+        let mut setup = Vec::new();
+        for _ in 0..rng.range(2, 6) {
+            let c = if rng.chance(1, 2) { rng.below(3) as u8 } else { rng.below(15) as u8 };
+            let op = eop_of_code(c).unwrap();
+            if spec_apply(&mut spec, loop_tag(op), op).is_some() {
+                setup.push(c);
+            }
+        }
+        if spec.peers.is_empty() {
+            continue;
+        }
+        let start = spec.digest(&ENUM_IDS, &enum_keys());
+        // random walk; close the cycle greedily: stop as soon as the start state recurs
+        let mut cycle = Vec::new();
+        let mut cur = spec.clone();
+        let mut closed = false;
+        for _ in 0..10 {
+            let c = rng.below(15) as u8;
+            let op = eop_of_code(c).unwrap();
+            let mut nxt = cur.clone();
+            if spec_apply(&mut nxt, loop_tag(op), op).is_none() {
+                continue;
+            }
+            if nxt.digest(&ENUM_IDS, &enum_keys()) == cur.digest(&ENUM_IDS, &enum_keys()) {
+                continue; // a no-op step adds nothing
+            }
+            cur = nxt;
+            cycle.push(c);
+            if cur.digest(&ENUM_IDS, &enum_keys()) == start && cycle.len() >= 2 {
+                closed = true;
+                break;
+            }
+        }
+        if !closed {
+            continue;
+        }
+        let readers: Vec<String> = (0..3).map(|_| (0..rng.range(1, 2)).map(|_| code_char(rng.range(15, 29) as u8)).collect()).collect();
+        return format!("loop {} {} {} {}", idx, codes_to_string(&setup), codes_to_string(&cycle), readers.join(" "));
+    }
+}
+
 fn main() {
     let args = Args::parse();
     quiet_panics();
     let mut out = Out::new(&args.out);
     let mut rng = Rng::new(args.seed);
-    let thorough = args.thorough();
+    // `check` runs the thorough generators once more when a proof or the correspondence broke without a
+    // failing input ("search", out dir ...-search).  That run must stay short in the quick tier: it gets its
+    // own sizing (longer races and loops than quick, far less enumeration than thorough).
+    let search = args.thorough() && args.out.to_string_lossy().ends_with("-search");
+    let thorough = args.thorough() && !search;
     let replay = args.replay_ops();
     let cfg = Cfg {
-        conc_reps: if replay.is_some() { 20000 } else if thorough { 2500 } else { 400 },
+        loop_budget: Duration::from_millis(if replay.is_some() { 3000 } else if search { 1500 } else if thorough { 1000 } else { 120 }),
+        conc_reps: if replay.is_some() { 20000 } else if thorough || search { 2500 } else { 400 },
         conc_budget: Duration::from_millis(if replay.is_some() { 30000 } else if thorough { 250 } else { 60 }),
         threads: 4,
     };
@@ -1894,6 +2271,8 @@ fn main() {
         n += 1;
         if thorough {
             ops.push(format!("enum {} 7 3 -", n));
+        } else if search {
+            ops.push(format!("enum {} 6 2 -", n));
         } else {
             ops.push(format!("enum {} 5 0 -", n));
         }
@@ -1932,7 +2311,14 @@ fn main() {
             ops.push(format!("enum {} {} 0 {}", n, cover_depth, p));
         }
         // (3) random long histories
-        let (hist, maxlen) = if thorough { (2000, 400) } else { (250, 200) };
+        let (hist, maxlen) = if thorough { (2000, 400) } else if search { (500, 300) } else { (250, 200) };
+        // a fixed opener: a JSON body that fails to encode after some output, then a successful JSON broadcast
+        // from the same thread (state surviving a failed call)
+        for l in ["reset {} via=0", "ins {} 0 1 ok", "ins {} 1 2 ok", "bcastfail {} json 2f70 partial", "bcast {} json 2f70 2 7b226e223a327d via=0", "bcastfail {} json 2f70 mapkey", "bcast {} json 2f70 2 7b226e223a337d via=0", "bcastfail {} beve 2f70 partial", "BEVE", "dump {}"] {
+            n += 1;
+            let l = if l == "BEVE" { format!("bcast {{}} beve 2f70 1 {} 7b226e223a327d", hex(&beve::to_vec(&serde_json::json!({"n": 2})).unwrap())) } else { l.to_string() };
+            ops.push(l.replace("{}", &n.to_string()));
+        }
         for _ in 0..hist {
             let len = rng.range(10, maxlen) as usize;
             gen_history(&mut rng, &mut n, len, thorough, &mut ops);
@@ -1956,9 +2342,25 @@ fn main() {
                 }
             }
         }
-        for _ in 0..(if thorough { 800 } else { 120 }) {
+        for _ in 0..(if thorough { 800 } else if search { 200 } else { 120 }) {
             n += 1;
             ops.push(gen_conc(&mut rng, n));
+        }
+        // (5) looped races: lookups against a mutator that cycles through a re-point / remove / re-insert sequence
+        for t in targeted_loops() {
+            let w: Vec<&str> = t.split_whitespace().collect();
+            let ok = match (eops_of_str(w[0]), eops_of_str(w[1])) {
+                (Some(su), Some(cy)) => loop_states(&su, &cy).is_some(),
+                _ => false,
+            };
+            if ok {
+                n += 1;
+                ops.push(format!("loop {} {}", n, w.join(" ")));
+            }
+        }
+        for _ in 0..(if thorough { 60 } else if search { 30 } else { 8 }) {
+            n += 1;
+            ops.push(gen_loop(&mut rng, n));
         }
     }
     let mut se = Sess::new();
